@@ -4,6 +4,14 @@
 //! token-wise (C18) and unrolled by the independent reference unroller (`pre_unroll.rs`, C06).
 use crate::rng::Rng;
 
+/// `Rng::new(s)` and `Rng::new(s + 1)` are the same splitmix stream shifted by ONE draw (the state is
+/// `(s + k)·γ + c`): seeds are spread first so that different VERIF_SEEDs give unrelated streams.
+pub fn spread_seed(seed: u64) -> u64 {
+    let mut z = seed.wrapping_add(0x632BE59BD9B4E019).wrapping_mul(0xD6E8FEB86659FD93);
+    z ^= z >> 32;
+    z.wrapping_mul(0xD6E8FEB86659FD93) ^ (z >> 29)
+}
+
 // ---------------------------------------------------------------------------------------------
 // values
 // ---------------------------------------------------------------------------------------------
